@@ -9,6 +9,7 @@ from .common import CARGO_ENV, ENGINE, NPROC, TOOLCHAIN, MachineryError, ensure_
 
 _BIN = os.environ.get("VERIF_ADAPTER_BIN") or os.path.join(ENGINE, "target", "debug", "tvadapter")   # override: development aid (coverage build)
 _built = bool(os.environ.get("VERIF_ADAPTER_BIN"))
+JOB_TIMEOUT_S = float(os.environ.get("VERIF_JOB_TIMEOUT", "90"))
 
 
 def build(features=None):
@@ -31,10 +32,25 @@ def _run_chunk(jobs, env=None):
     that was in flight and continue with the remainder in a fresh process."""
     answers = {}
     pending = list(jobs)
+    timed_out_before = False
     while pending:
         data = "\n".join(json.dumps(j) for j in pending) + "\n"
-        p = subprocess.run([_BIN], input=data.encode(), stdout=subprocess.PIPE, stderr=subprocess.PIPE,
-                           env=env or os.environ)
+        # a job takes milliseconds; a subject that never returns (an unbounded loop in the code under test) must end in a verdict, not in a
+        # hung check: the chunk gets a generous wall budget, the job in flight when it expires is reported as aborted (timeout)
+        budget = (JOB_TIMEOUT_S if not timed_out_before else JOB_TIMEOUT_S / 3.0) + 0.25 * len(pending)
+        proc = subprocess.Popen([_BIN], stdin=subprocess.PIPE, stdout=subprocess.PIPE, stderr=subprocess.PIPE, env=env or os.environ)
+        timed_out = False
+        try:
+            so, se = proc.communicate(data.encode(), timeout=budget)
+        except subprocess.TimeoutExpired:
+            proc.kill()
+            so, se = proc.communicate()
+            timed_out = timed_out_before = True
+
+        class _P:
+            pass
+        p = _P()
+        p.stdout, p.stderr, p.returncode = so, (se + (b"\n[verif] killed after %ds without finishing the job in flight" % int(budget) if timed_out else b"")), (proc.returncode if not timed_out else -9)
         lines = [l for l in p.stdout.decode("utf-8", errors="replace").split("\n") if l.strip()]
         n_ok = 0
         for l in lines:
@@ -48,7 +64,7 @@ def _run_chunk(jobs, env=None):
             break
         # the process died while working on pending[n_ok]
         culprit = pending[n_ok]
-        answers[culprit["id"]] = {"id": culprit["id"], "abort": True, "returncode": p.returncode,
+        answers[culprit["id"]] = {"id": culprit["id"], "abort": True, "returncode": p.returncode, "timeout": timed_out,
                                   "stderr": p.stderr.decode(errors="replace")[-500:]}
         pending = pending[n_ok + 1:]
     return answers
